@@ -24,21 +24,21 @@ nixio.util.util.now_int = lambda: CLOCK[0]
 ERR = {"dup": 1, "badname": 2, "type": 3, "index": 4, "key": 5, "runtime": 6, "readonly": 7, "other": 8}
 
 CKINDS = ["CBlocks", "CSections", "CGroups", "CDataArrays", "CTags", "CMultiTags", "CSources",
-          "CProperties", "CFeatures"]
+          "CProperties", "CFeatures", "CDataFrames"]
 CONT_ATTR = {"CBlocks": "blocks", "CSections": "sections", "CGroups": "groups", "CDataArrays": "data_arrays",
              "CTags": "tags", "CMultiTags": "multi_tags", "CSources": "sources", "CProperties": "props",
-             "CFeatures": "features"}
+             "CFeatures": "features", "CDataFrames": "data_frames"}
 CONT_ITEM = {"CBlocks": "Block", "CSections": "Section", "CGroups": "Group", "CDataArrays": "DataArray",
              "CTags": "Tag", "CMultiTags": "MultiTag", "CSources": "Source", "CProperties": "Property",
-             "CFeatures": "Feature"}
-HAS_CONT = {"File": ["CBlocks", "CSections"], "Block": ["CGroups", "CDataArrays", "CTags", "CMultiTags", "CSources"],
+             "CFeatures": "Feature", "CDataFrames": "DataFrame"}
+HAS_CONT = {"File": ["CBlocks", "CSections"], "Block": ["CGroups", "CDataArrays", "CTags", "CMultiTags", "CSources", "CDataFrames"],
             "Source": ["CSources"], "Section": ["CSections", "CProperties"], "Tag": ["CFeatures"],
             "MultiTag": ["CFeatures"]}
 LIST_ATTR = {"LDataArrays": "data_arrays", "LTags": "tags", "LMultiTags": "multi_tags",
-             "LReferences": "references", "LSources": "sources"}
+             "LReferences": "references", "LSources": "sources", "LDataFrames": "data_frames"}
 LIST_ITEM = {"LDataArrays": "DataArray", "LTags": "Tag", "LMultiTags": "MultiTag", "LReferences": "DataArray",
-             "LSources": "Source"}
-HAS_LIST = {"Group": ["LDataArrays", "LTags", "LMultiTags", "LSources"], "Tag": ["LReferences", "LSources"],
+             "LSources": "Source", "LDataFrames": "DataFrame"}
+HAS_LIST = {"Group": ["LDataArrays", "LTags", "LMultiTags", "LSources", "LDataFrames"], "Tag": ["LReferences", "LSources"],
             "MultiTag": ["LReferences", "LSources"], "DataArray": ["LSources"]}
 ATTRS = {"AType": "type", "ADefinition": "definition", "ALabel": "label", "AUnit": "unit",
          "ARepository": "repository", "AReference": "reference"}
@@ -138,6 +138,8 @@ class Runner(object):
                 o = p.create_data_array(name, typ, data=np.array(pl, dtype=float))
             elif c == "CTags":
                 o = p.create_tag(name, typ, [float(x) for x in pl])
+            elif c == "CDataFrames":
+                o = p.create_data_frame(name, typ, col_dict={"c": np.int64}, data=[(int(x),) for x in pl])
             elif c == "CSources":
                 o = p.create_source(name, typ)
             elif c == "CProperties":
@@ -168,6 +170,8 @@ class Runner(object):
                 o = d.create_tag(copy_from=x, keep_copy_id=keep, **kw)
             elif dk == "Block" and xk == "MultiTag":
                 o = d.create_multi_tag(copy_from=x, keep_copy_id=keep, **kw)
+            elif dk == "Block" and xk == "DataFrame":
+                o = d.create_data_frame(copy_from=x, keep_copy_id=keep, **kw)
             elif dk in ("File", "Section") and xk == "Section":
                 o = d.copy_section(x, children=children, keep_id=keep, **kw)
             elif dk == "Section" and xk == "Property":
@@ -303,7 +307,7 @@ class Runner(object):
 
     # ---- C20: model-free observations around a copy
     SUB = {"Block": "block", "DataArray": "data_array", "Tag": "tag", "MultiTag": "multi_tag", "Section": "section",
-           "Property": "prop"}
+           "Property": "prop", "DataFrame": "data_frame"}
 
     def subwalk(self, kind, o, shallow=False):
         w = nixwalk.Walker(False, set())
@@ -377,6 +381,9 @@ class Runner(object):
                 pass
             except Exception as exc:
                 ev["problems"].append("walking the copy's internal links failed: %s" % type(exc).__name__)
+            if not getattr(self, "any_kept", False) and not keep and not self.linklists_coherent(x):
+                for p in self.linklists_coherent(o)[:2]:
+                    ev["problems"].append("in the copy, " + p)
         ev["inside_source"] = (self.subwalk(xk, x)[0] != src_before[0][0])
         if not ev["inside_source"] and len(self.pairs) < 4:
             self.pairs.append({"step": ev["step"], "keep": bool(keep), "kind": xk, "src": x, "cp": o, "shallow": shallow,
@@ -393,6 +400,19 @@ class Runner(object):
             return {"copies": 0, "problems": []}
         f2 = nixio.File.open(path2, nixio.FileMode.Overwrite)
         try:
+            # a fixed addition to the first block: a data frame that is member of a group (data frames are not part of
+            # the generated histories), next to an array member
+            blocks = list(self.f.blocks)
+            if blocks:
+                try:
+                    b0 = blocks[0]
+                    xdf = b0.create_data_frame("x-frame", "t", col_dict={"c": int}, data=[(1,), (2,)])
+                    xg = b0.create_group("x-group", "t")
+                    xg.data_frames.append(xdf)
+                    if len(b0.data_arrays):
+                        xg.data_arrays.append(b0.data_arrays[0])
+                except Exception as exc:
+                    problems.append("could not add a data frame to a group: %s" % type(exc).__name__)
             whole_before = nixwalk.walk(self.f, False, set())
             for kind, items in (("Block", list(self.f.blocks)), ("Section", list(self.f.sections))):
                 for x in items[:3]:
@@ -427,6 +447,9 @@ class Runner(object):
                             elif a != b:
                                 problems.append("cross-file copy of %s %r differs at token %d" % (kind, x.name, k))
                                 break
+                        if kind == "Block" and not dups and not self.linklists_coherent(x):
+                            for pr in self.linklists_coherent(o)[:2]:
+                                problems.append("cross-file block copy (keep=%s): %s" % (keep, pr))
                         if kind == "Block":
                             try:
                                 ns, bs = self.internal_links(x)
@@ -464,6 +487,31 @@ class Runner(object):
         except OSError:
             pass
         return {"copies": n, "problems": problems}
+
+    @staticmethod
+    def linklists_coherent(b):
+        """every member of every link list of a block's groups, tags and multi-tags can be found in that list by
+        membership test, by id and by name; returns the list of problems"""
+        out = []
+        owners = [(g, ("data_arrays", "tags", "multi_tags", "sources", "data_frames")) for g in b.groups] + \
+                 [(t, ("references", "sources")) for t in list(b.tags) + list(b.multi_tags)] + \
+                 [(a, ("sources",)) for a in b.data_arrays]
+        for o, attrs in owners:
+            for attr in attrs:
+                try:
+                    lst = getattr(o, attr)
+                    members = list(lst)
+                except Exception as exc:
+                    out.append("%s.%s cannot be listed: %s" % (type(o).__name__, attr, type(exc).__name__))
+                    continue
+                for m in members:
+                    try:
+                        ok = (m in lst) and (m.id in lst) and lst[m.id].id == m.id and lst[m.name].id is not None
+                    except Exception as exc:
+                        ok = False
+                    if not ok:
+                        out.append("%s.%s: a listed member cannot be found by membership / id / name" % (type(o).__name__, attr))
+        return out
 
     @staticmethod
     def internal_links(b):
@@ -715,7 +763,7 @@ class Gen(object):
         if t == "copy":
             if self.ncopies >= self.profile.get("max_copies", 4):
                 return None
-            pairs = [("File", ["Block"]), ("Block", ["DataArray", "Tag", "MultiTag"]), ("File", ["Section"]),
+            pairs = [("File", ["Block"]), ("Block", ["DataArray", "Tag", "MultiTag", "DataFrame"]), ("File", ["Section"]),
                      ("Section", ["Section"]), ("Section", ["Property"])]
             dk, xks = rnd.choice(pairs)
             ds, xs = self.live([dk]), self.live(xks)
@@ -740,7 +788,7 @@ class Gen(object):
                 return None
             return ("create_feature", rnd.choice(ts), rnd.choice(das), rnd.choice(["tagged", "untagged", "indexed"]))
         if t in ("lookup", "delete"):
-            cands = self.live(["Block", "Group", "DataArray", "Tag", "MultiTag", "Source", "Section", "Property", "Feature"])
+            cands = self.live(["Block", "Group", "DataArray", "Tag", "MultiTag", "Source", "Section", "Property", "Feature", "DataFrame"])
             if not cands:
                 return None
             h = rnd.choice(cands)
@@ -759,7 +807,7 @@ class Gen(object):
                 return None
             ph = rnd.choice(owners)
             l = rnd.choice(HAS_LIST[self.r.kind(ph)])
-            want = LIST_ITEM[l] if rnd.random() < 0.9 else rnd.choice(["DataArray", "Tag", "Source", "Section"])
+            want = LIST_ITEM[l] if rnd.random() < 0.9 else rnd.choice(["DataArray", "Tag", "Source", "Section", "DataFrame"])
             xs = self.live([want])
             if not xs:
                 return None
@@ -767,7 +815,7 @@ class Gen(object):
                 # adversarial: an entity of ANOTHER block whose name also exists in the owner's block
                 try:
                     blk = self.r.obj(ph)._parent
-                    local = set(x.name for x in getattr(blk, {"DataArray": "data_arrays", "Tag": "tags",
+                    local = set(x.name for x in getattr(blk, {"DataArray": "data_arrays", "Tag": "tags", "DataFrame": "data_frames",
                                                              "MultiTag": "multi_tags", "Source": "sources"}[want]))
                     foreign = [i for i in xs if getattr(self.r.obj(i), "_parent", None) is not blk
                                and self.r.obj(i).name in local]
@@ -801,7 +849,7 @@ class Gen(object):
         if t == "set_link":
             r = rnd.choice(["RMetadata", "RMetadata", "RPositions", "RExtents", "RFeatureData", "RSectionLink"])
             if r == "RMetadata":
-                owners = self.live(["Block", "Group", "DataArray", "Tag", "MultiTag", "Source"])
+                owners = self.live(["Block", "Group", "DataArray", "Tag", "MultiTag", "Source", "DataFrame"])
                 secs = self.live(["Section"])
                 if not owners:
                     return None
@@ -829,8 +877,8 @@ class Gen(object):
                 return ("set_link", rnd.choice(secs), r, rnd.choice(secs))
         if t == "set_attr":
             a = rnd.choice(["AType", "ADefinition", "ADefinition", "ALabel", "AUnit", "ARepository", "AReference"])
-            kinds = {"AType": ["Block", "Group", "DataArray", "Tag", "MultiTag", "Source", "Section"],
-                     "ADefinition": ["Block", "Group", "DataArray", "Tag", "MultiTag", "Source", "Section"],
+            kinds = {"AType": ["Block", "Group", "DataArray", "Tag", "MultiTag", "Source", "Section", "DataFrame"],
+                     "ADefinition": ["Block", "Group", "DataArray", "Tag", "MultiTag", "Source", "Section", "DataFrame"],
                      "ALabel": ["DataArray"], "AUnit": ["DataArray"], "ARepository": ["Section"],
                      "AReference": ["Section"]}[a]
             hs = self.live(kinds)
@@ -883,7 +931,7 @@ class Gen(object):
         if t == "set_auto":
             return ("set_auto", rnd.random() < 0.5)
         if t == "force":
-            hs = self.live(["Block", "Group", "DataArray", "Tag", "MultiTag", "Source", "Section"])
+            hs = self.live(["Block", "Group", "DataArray", "Tag", "MultiTag", "Source", "Section", "DataFrame"])
             if not hs:
                 return None
             return ("force", rnd.choice(hs), rnd.random() < 0.5,
@@ -922,7 +970,7 @@ class Gen(object):
         """(parent handle, container kind) through which handle h's entity is reachable, using
         the cached nix parent of the Python object"""
         k, o, _ = self.r.handles[h]
-        kind_to_c = {"Block": "CBlocks", "Group": "CGroups", "DataArray": "CDataArrays", "Tag": "CTags",
+        kind_to_c = {"Block": "CBlocks", "Group": "CGroups", "DataArray": "CDataArrays", "Tag": "CTags", "DataFrame": "CDataFrames",
                      "MultiTag": "CMultiTags", "Source": "CSources", "Section": "CSections",
                      "Property": "CProperties", "Feature": "CFeatures"}
         c = kind_to_c[k]
